@@ -251,13 +251,17 @@ impl Qcow2Header {
             .with_fixint_encoding()
             .with_big_endian();
 
+        if header_buf.len() < size_of::<Qcow2RawHeader>() {
+            return Err("header buffer is too small".into());
+        }
+
         let mut header: Qcow2RawHeader =
             bincode.deserialize(&header_buf[0..size_of::<Qcow2RawHeader>()])?;
         if header.magic != Self::QCOW2_MAGIC {
             return Err("Not a qcow2 file".into());
         }
 
-        if header.version < 2 {
+        if header.version < 2 || header.version > 3 {
             let v = header.version;
             return Err(format!("qcow2 v{v} is not supported").into());
         }
@@ -284,6 +288,34 @@ impl Qcow2Header {
         let cluster_size = 1u64 << cluster_bits;
         if cluster_size > Self::MAX_CLUSTER_SIZE as u64 {
             return Err(format!("qcow2 cluster size {cluster_size} is too big").into());
+        }
+
+        // features this implementation doesn't have must be refused, not
+        // misread
+        let crypt_method = header.crypt_method;
+        if crypt_method != 0 {
+            return Err(format!("encrypted qcow2 (method {crypt_method}) is not supported").into());
+        }
+
+        let refcount_order = header.refcount_order;
+        if refcount_order > 6 {
+            return Err(format!("qcow2 refcount_order {refcount_order} is invalid").into());
+        }
+
+        if header.version >= 3 && header.header_length < 104 {
+            let l = header.header_length;
+            return Err(format!("qcow2 header_length {l} is invalid").into());
+        }
+
+        // table sizes come from the file and get memory allocated for them
+        let reftable_bytes = (header.refcount_table_clusters as u64) << cluster_bits;
+        if reftable_bytes == 0 || reftable_bytes > Self::MAX_REFCOUNT_TABLE_SIZE as u64 {
+            return Err(format!("qcow2 refcount table size {reftable_bytes} is invalid").into());
+        }
+
+        let l1_bytes = (header.l1_size as u64) * size_of::<u64>() as u64;
+        if l1_bytes > Self::MAX_L1_SIZE as u64 {
+            return Err(format!("qcow2 L1 table size {l1_bytes} is too big").into());
         }
 
         // the spec requires both tables to start at a cluster boundary,
